@@ -510,6 +510,11 @@ impl From<B256ED> for B256 {
 pub uninterp spec fn u64_of(b: U64ED) -> u64;
 #[verifier::external_body]
 pub fn u64ed_to_u64(b: U64ED) -> (r: u64) ensures r == u64_of(b) { unimplemented!() }
+// `x.into()` U64ED -> u64 where rule N18 has not rewritten it (uint_ed.rs implements Into<u64> for U64ED)
+impl From<U64ED> for u64 {
+    #[verifier::external_body]
+    fn from(b: U64ED) -> (r: u64) ensures r == u64_of(b) { unimplemented!() }
+}
 pub broadcast axiom fn axiom_u64ed_roundtrip(x: u64)
     ensures #[trigger] u64_of(u64ed_of(x)) == x;
 pub broadcast axiom fn axiom_u64ed_roundtrip2(x: U64ED)
